@@ -204,6 +204,7 @@ def c16_quick(seed):
     # the five mutating operation kinds + find for the pairs convention, two kinds (seed-rotated) for whole items
     jobs = [c16_job("pairs", op) for op in (0, 2, 3, 4)]
     jobs += [c16_job("whole", [2, 4, 3, 0][seed % 4])]
+    jobs += [c16_job("whole", 5, pops=1)]   # clear() after a pop_first (consumed prefix > 0): cheap (~40 s)
     jobs.append(Job("deque", "c16::c16_push_not_greater_panics_pairs", kind="must_panic", note="assertion failed: self.marker.cmp", timeout=300, mem_gb=4,
                     bounds="pairs: every live item not greater than the last must panic"))
     jobs.append(Job("deque", "c16::c16_push_not_greater_panics_whole", kind="must_panic", note="assertion failed: self.marker.cmp", timeout=300, mem_gb=4,
@@ -228,7 +229,7 @@ def c16_thorough(seed):
 reg(Prop(
     "C16", "SortedDeque vs reference ordered map",
     quick=c16_quick, thorough=c16_thorough,
-    bounds_quick="one step from every valid physical layout of <= 5 items (symbolic strictly increasing u8 keys, symbolic tombstones, live ends): operation kinds push / remove / pop_first / pop_last, each as its own job (operation KIND enumerated, all data symbolic) for the (key, Option<value>) convention, 1 kind (seed-rotated) for the whole-item convention; must-panic harnesses for both conventions",
+    bounds_quick="one step from every valid physical layout of <= 5 items (symbolic strictly increasing u8 keys, symbolic tombstones, live ends): operation kinds push / remove / pop_first / pop_last, each as its own job (operation KIND enumerated, all data symbolic) for the (key, Option<value>) convention, 1 kind (seed-rotated) plus clear() after one pop_first for the whole-item convention; must-panic harnesses for both conventions",
     bounds_thorough="all 7 operation kinds x {0,1,2} preceding pop_first calls x both conventions",
     outside=["more than 5 physical items", "comparator objects other than ()", "key types other than u8",
              "operation kind is enumerated per job (a symbolic kind ran out of memory); the layout, keys, values, tombstones and arguments are symbolic"],
